@@ -1,4 +1,4 @@
-import Oracle.SpecElem
+import Oracle.SpecConv
 
 def main : IO UInt32 :=
-  Oracle.run (Oracle.mkTable Gen.table) Oracle.allSpecTable
+  Oracle.run (Oracle.mkTable Gen.table) Oracle.convSpecTable
